@@ -2015,6 +2015,14 @@ bool Derivative::is_canonical(const RCP<const Basic> &arg,
             }
         }
         return found;
+    } else if (is_a_sub<Function>(*arg)) {
+        // functions without a differentiation rule (sign, floor, conjugate,
+        // max, ...): DiffVisitor returns them unevaluated
+        for (auto &p : x) {
+            if (has_symbol(*arg, *rcp_static_cast<const Symbol>(p)))
+                return true;
+        }
+        return false;
     }
     return false;
 }
